@@ -10,6 +10,7 @@ structure DS where
   a : Option Ascii := none
   sq : Sq := {}
   ssi : Option Ssi := none
+  blk : Option Block := none
   dead : Bool := false          -- a call failed: the C API leaves the handle in an unspecified state
   unmodelled : Bool := false    -- a format / call outside the model was selected: answer `unmodelled` from here on
   deriving Inhabited
@@ -42,15 +43,44 @@ def abcCode (s : String) : Option Nat :=
   match s with
   | "text" => some 0 | "dna" => some 1 | "rna" => some 2 | "amino" => some 3 | _ => none
 
+/-- `sqascii_GuessFileFormat()`: by file-name suffix, else by the first non-blank line (read in recording + line mode).
+    Returns the reset handle and the format, `none` if undetermined (the MSA autodetection takes over: outside the model). -/
+def guessFormat (a : Ascii) (ext : String) : Ascii × Option Nat :=
+  if ext == "fa" then (a, some 1) else if ext == "gb" then (a, some 3) else
+  let a := { a with recording := 1, linebased := true }
+  let (a, _) := loadbuf a
+  let (a, st) := skipLinesWhile isBlankStr (fuelOf a) a
+  let fmt : Option Nat :=
+    if st != .ok then none
+    else if a.line.getD 0 0 == chGt then some 1
+    else if hasPrefix a.line "ID   " then some 2
+    else if hasPrefix a.line "LOCUS   " then some 3
+    else if containsStr a.line "Genetic Sequence Data Bank" then some 3
+    else none
+  ({ a with mpos := 0, recording := 0, linebased := false, line := #[], nc := 0, bpos := 0 }, fmt)
+
+def inmapFor (fmt abc : Nat) : Bytes :=
+  if fmt == 2 || fmt == 5 || fmt == 3 || fmt == 4 then inmapEmbl abc
+  else if fmt == 7 then inmapDaemon abc
+  else inmapFasta abc
+
 /-- `esl_sqfile_Open` / `esl_sqfile_OpenDigital` for the modelled formats; `none` = outside the model -/
-def openModel (file : Bytes) (fmt abc B : Nat) : Option (Ascii × Status) :=
-  if fmt == 1 then
-    let a : Ascii := { file := file, B := B, fmt := 1, abc := abc, eofIsOk := true, linebased := false, inmap := inmapFasta 0 }
-    let (a, st) := loadbuf a
-    if st == .eof then some (a, .eformat)
-    else if st != .ok then some (a, st)
-    else some ({ a with inmap := inmapFasta abc }, .ok)
-  else none
+def openModel (file : Bytes) (ext : String) (fmt abc B : Nat) : Option (Ascii × Status) :=
+  let a0 : Ascii := { file := file, B := B, abc := abc }
+  let (a0, fmtR) : Ascii × Option Nat := if fmt == 0 then guessFormat a0 ext else (a0, some fmt)
+  match fmtR with
+  | none => none
+  | some fmt =>
+  if !(fmt == 1 || fmt == 2 || fmt == 3 || fmt == 4 || fmt == 5 || fmt == 7 || fmt == 8) then none else
+  let lineb := fmt == 2 || fmt == 5 || fmt == 3 || fmt == 4
+  let a : Ascii := { a0 with fmt := fmt, eofIsOk := (fmt == 1 || fmt == 8), linebased := lineb, inmap := inmapFor fmt 0 }
+  let (a, st) := loadbuf a
+  if st == .eof then some (a, .eformat)
+  else if st != .ok then some (a, st)
+  else
+    let (a, st) := if fmt == 8 then fileheaderHmmpgmd a else (a, Status.ok)
+    if st != .ok then some (a, st) else
+    some ({ a with inmap := inmapFor fmt abc, haveErr := false }, .ok)
 
 def freshSq (abc : Nat) : Sq := { digital := abc != 0, abc := abc }
 
@@ -69,7 +99,7 @@ def sameRec (x y : Sq) : Bool :=
 
 /-- the op `roundtrip`: read all, write all as FASTA, re-read, compare -/
 def roundtrip (file : Bytes) (abc B : Nat) : String :=
-  match openModel file 1 abc B with
+  match openModel file "fa" 1 abc B with
   | some (a, .ok) =>
     match readAllLoop (file.size + 2) a abc #[] with
     | none => "skip"
@@ -78,7 +108,7 @@ def roundtrip (file : Bytes) (abc B : Nat) : String :=
       let file2 : Bytes := out.toArray
       let recs2 : Option (Array Sq) :=
         if file2.size == 0 then some #[] else
-        match openModel file2 1 abc B with
+        match openModel file2 "fa" 1 abc B with
         | some (a2, .ok) => readAllLoop (file2.size + 2) a2 abc #[]
         | _ => none
       match recs2 with
@@ -111,10 +141,10 @@ def step (s : DS) (line : String) : DS × String :=
     match (arg? ws "fmt").bind fmtCode, (arg? ws "abc").bind abcCode, argNat? ws "B" with
     | some fmt, some abc, some B =>
       if B == 0 then (s, "bad-op") else
-      match openModel s.file fmt abc B with
+      match openModel s.file s.ext fmt abc B with
       | none => ({ s with unmodelled := true, a := none }, "unmodelled")
       | some (a, st) =>
-        if st == .ok then ({ s with a := some a, sq := freshSq abc, ssi := none, dead := false, unmodelled := false }, s!"ok fmt={a.fmt}")
+        if st == .ok then ({ s with a := some a, sq := freshSq abc, ssi := none, blk := none, dead := false, unmodelled := false }, s!"ok fmt={a.fmt}")
         else ({ s with a := none, dead := false, unmodelled := false }, st.name)
     | none, some _, some _ =>
       -- a format name the model does not know (alignment formats read as sequences): outside the model
@@ -141,7 +171,7 @@ def step (s : DS) (line : String) : DS × String :=
     match s.a with
     | none => (s, "closed")
     | some a0 =>
-      match openModel s.file a0.fmt 0 a0.B with
+      match openModel s.file s.ext a0.fmt 0 a0.B with
       | some (a, .ok) =>
         match buildIndexLoop (s.file.size + 2) a {} with
         | none => (s, "index-failed")
@@ -212,7 +242,32 @@ def step (s : DS) (line : String) : DS × String :=
         if stR != .ok then ({ s with a := some a, dead := true }, "tool-fatal") else
         ({ s with a := some a }, s!"ok hex={hexOrDash (writeFasta sq)}")
     | _, _, _, _ => (s, if s.unmodelled then "unmodelled" else "bad-op")
-  | "readblock" :: _ => ({ s with unmodelled := true }, "unmodelled")
+  | "readblock" :: _ =>
+    match argNat? ws "list", argInt? ws "maxres", argInt? ws "maxseq", argNat? ws "init", argNat? ws "long", argInt? ws "ctx" with
+    | some ls, some mr, some ms, some ini, some lng, some ctx => withA s fun a =>
+        let blk : Block := match s.blk with
+          | some b => b
+          | none => { listSize := ls, complete := true, list := (Array.range ls).map fun _ => freshSq a.abc }
+        -- the caller's part of the contract: recycle the sequences (short mode) / move the incomplete window to slot 0 (long mode)
+        let blk :=
+          if lng == 0 then { blk with list := blk.list.map Sq.reuse }
+          else if !blk.complete && blk.count > 0 then
+            let last := blk.list.getD (blk.count - 1) {}
+            let l0 := if blk.count > 1 then (blk.list.getD 0 {}).copyFrom last else blk.list.getD 0 {}
+            { blk with list := blk.list.setIfInBounds 0 { l0 with C := min ctx (l0.n : Int) } }
+          else blk
+        let (a, blk, st) := readBlock a blk mr ms (ini != 0) (lng != 0)
+        let exc := if a.exc then " exc" else ""
+        if st == .ok then
+          let items := (List.range blk.count).map fun i =>
+            let q := blk.list.getD i {}
+            s!" | name={hexB (cstr q.name)} n={q.n} L={q.L} start={q.start} end={q.end_} C={q.C} W={q.W} seq={hexB q.seq}"
+          ({ s with a := some a, blk := some blk }, s!"ok count={blk.count} complete={if blk.complete then 1 else 0}" ++ String.join items ++ " | wf=1")
+        else if st == .eof then ({ s with a := some a, blk := some blk }, "eof")
+        else if st == .fault then ({ s with a := some a, blk := some blk, dead := true }, "fault")
+        else ({ s with a := some a, blk := some blk, dead := true },
+              st.name ++ (if st == .eformat then (if a.haveErr then " msg" else " nomsg") else "") ++ exc)
+    | _, _, _, _, _, _ => (s, "bad-op")
   | "guessabc" :: _ => ({ s with unmodelled := true }, "unmodelled")
   | "wfasta" :: _ =>
     if s.unmodelled then (s, "unmodelled") else (s, s!"ok hex={hexOrDash (writeFasta s.sq)}")
